@@ -1,6 +1,7 @@
 """C10 - link-layer envelopes are transparent: Nack, PIT token, wrapped packets."""
 from hypothesis import strategies as st
 
+from .. import pkt as P
 from ..core import Result, SubCheck
 from ..refs import tlv as T
 from ..sim import net
@@ -58,13 +59,15 @@ def _history(fe):
     data = st.fixed_dictionaries({'op': st.just('data'), 'of': st.integers(0, 5), 'ext': st.lists(st.sampled_from(ALPHA), max_size=1),
                                   'env': _envspec(), 'token': st.one_of(st.none(), st.binary(max_size=8).map(bytes.hex))})
     nack = st.fixed_dictionaries({'op': st.just('nack'), 'of': st.integers(0, 5), 'reason': st.sampled_from(REASONS), 'env': _envspec(),
-                                  'token': st.one_of(st.none(), st.none(), st.binary(max_size=8).map(bytes.hex))})
+                                  'token': st.one_of(st.none(), st.none(), st.binary(max_size=8).map(bytes.hex)),
+                                  'reencoded': st.sampled_from([False, False, True])})
     frag = st.fixed_dictionaries({'op': st.just('frag'), 'of': st.integers(0, 5), 'kind': st.sampled_from(['data', 'nack', 'interest']),
                                   'fi': st.integers(0, 3), 'fc': st.integers(2, 4)})
     interest = st.fixed_dictionaries({'op': st.just('interest'), 'name': nm,
                                       'token': st.one_of(st.none(), st.binary(max_size=40).map(bytes.hex),
                                                          st.binary(min_size=1, max_size=8).map(bytes.hex)),
-                                      'env': _envspec(), 'params': st.sampled_from([False, False, True])})
+                                      'env': _envspec(), 'params': st.sampled_from([False, False, True]),
+                                      'life': st.sampled_from([4000, 4000, 4000, 50, 10])})
     reply = st.fixed_dictionaries({'op': st.just('reply'), 'k': st.integers(0, 7),
                                    'size': st.sampled_from([0, 0, 0, 300, 4000, 4096, 4200, 8800])})
     adv = st.fixed_dictionaries({'op': st.just('adv'), 'ms': st.sampled_from([0, 1, 10, 49, 51, 200])})
@@ -155,7 +158,15 @@ def _run(fe, ops, full, r, flags, trace):
                     flags.add('big-reason')
                 if len(op['env']) >= 2:
                     flags.add('multi-header')
-                send(e['h'].wire, op['env'], nack=True, reason=op['reason'],
+                inner = e['h'].wire
+                if op.get('reencoded'):
+                    # the peer does not echo the captured bytes: it encodes the Interest again, with another Nonce (a
+                    # retransmission it aggregated) - the Nack still NAMES the same Interest
+                    si = P.strict_interest(inner)
+                    inner = net.interest_wire(si['name'], can_be_prefix=si['can_be_prefix'], must_be_fresh=si['must_be_fresh'],
+                                              nonce=((si['nonce'] or 0) + 1 + op['of']) % 2 ** 32, lifetime=si['lifetime'])
+                    flags.add('nack-reencoded')
+                send(inner, op['env'], nack=True, reason=op['reason'],
                      token=None if op.get('token') is None else bytes.fromhex(op['token']))
                 trace.append('N')
             elif k == 'frag':
@@ -180,11 +191,13 @@ def _run(fe, ops, full, r, flags, trace):
                 if len(op['env']) >= 2:
                     flags.add('multi-header')
                 # (an Interest with ApplicationParameters goes through the handler's validator before it is delivered)
-                send(net.interest_wire(name, nonce=5, lifetime=4000, app_param=b'q' if op.get('params') and fe == 'v2' else None),
+                t_arrival = sim.vl.now_ms()
+                send(net.interest_wire(name, nonce=5, lifetime=op.get('life', 4000), app_param=b'q' if op.get('params') and fe == 'v2' else None),
                      op['env'], token=tok)
                 sim.vl.advance(0)
                 for c in calls[before:]:
                     c['token'] = tok
+                    c['deadline'] = t_arrival + op.get('life', 4000)
                 trace.append('I')
             elif k == 'reply':
                 held = [c for c in calls if 'reply' in c]
@@ -205,6 +218,18 @@ def _run(fe, ops, full, r, flags, trace):
                 tok = c.get('token')
                 if held.index(c) != len(held) - 1 and tok is not None:
                     flags.add('out-of-order-token')
+                now = sim.vl.now_ms()
+                if now > c.get('deadline', now) + 1:
+                    # the Interest's lifetime is over: nothing is sent any more, with or without a token
+                    flags.add('reply-after-deadline')
+                    if out:
+                        r.bad(f'C10/{fe}/reply-sent-after-deadline/{"tokened" if tok is not None else "bare"}',
+                              f'now={now} deadline={c["deadline"]}')
+                    trace.append('r')
+                    continue
+                if now >= c.get('deadline', now + 9) - 1:
+                    trace.append('R')
+                    continue          # at the deadline instant either behaviour is accepted
                 if len(out) != 1:
                     r.bad(f'C10/{fe}/reply-output-count', f'{len(out)} packets for one reply')
                 elif tok is None:
